@@ -11,6 +11,8 @@ import multiprocessing, os, random, traceback
 import prudp_session as ps
 import l1_corr
 import c04_keylen
+import c04_aggr
+import c04_knobs
 from sim import ticks
 
 LEVEL = "proof"
@@ -510,16 +512,17 @@ def run_pair(cfg, seed, mode, plan_filter=None, allow=None, want_ref=True):
         _, shape, fname = mode.split(":")
         script = c04_keylen.script(cfg, random.Random(seed), shape)
         fate = (lambda sim, r: c04_keylen.lose_first_fate(cfg, cfg.settings(), D)) if fname == "lose-first" else (lambda sim, r: (lambda tx: [D]))
-        ref = ps.run_session(cfg, seed & 0xFFFF, script, fate, phases_gap=1.0) if want_ref else None
-        att = ps.run_session(cfg, seed & 0xFFFF, script, fate, phases_gap=1.0, setup=make_setup(cfg, mode, plan_filter, seed, allow))
+        cfg_s = type(cfg)(**dict(cfg.describe(), version=2)) if getattr(cfg, "server_dual", False) else None
+        ref = ps.run_session(cfg, seed & 0xFFFF, script, fate, phases_gap=1.0, cfg_s=cfg_s) if want_ref else None
+        att = ps.run_session(cfg, seed & 0xFFFF, script, fate, phases_gap=1.0, setup=make_setup(cfg, mode, plan_filter, seed, allow), cfg_s=cfg_s)
         return ref, att
     # the same genuine datagrams are lost in both runs: a forged acknowledgement then shows (no retransmission)
     # (decided by the datagram's content and how often it has been sent, not by a global index: two endpoints acting at
     # the same virtual instant have no defined order)
     fate = lambda sim, r: loss_fate(seed)
     cfg_s = None
-    if mode == "other-encoding":
-        cfg_s = ps.Cfg(**dict(cfg.describe(), version=2))       # the server takes v0 and v1 on one port; the client uses cfg.version
+    if mode == "other-encoding" or getattr(cfg, "server_dual", False):
+        cfg_s = type(cfg)(**dict(cfg.describe(), version=2))       # the server takes v0 and v1 on one port; the client uses cfg.version
     ref = ps.run_session(cfg, seed & 0xFFFF, script, fate, phases_gap=1.0, cfg_s=cfg_s) if want_ref else None
     att = ps.run_session(cfg, seed & 0xFFFF, script, fate, phases_gap=1.0, setup=make_setup(cfg, mode, plan_filter, seed, allow), cfg_s=cfg_s)
     return ref, att
@@ -589,7 +592,9 @@ def mangled(got, sent, fs):
 def work(args):
     idx, cfgd, seed, mode = args
     try:
-        cfg = ps.Cfg(**cfgd)
+        cfg = c04_knobs.KCfg(**cfgd)
+        if mode.startswith("aggr"):
+            return work_aggr(idx, cfgd, cfg, seed, mode)
         if mode.startswith("connect-replay"):
             ref, att = run_pair(cfg, seed, mode, None, None)
             obs = ps.Observer(ref.settings, cfg)
@@ -669,6 +674,63 @@ def work(args):
         return idx, cfgd, seed, mode, [], None, {}, traceback.format_exc()
 
 
+def run_aggr(cfg, seed, cls, variant, plan_filter=None):
+    """one session of the `aggr` family (harness/c04_aggr.py); variant: what stands for every aggregate (attack / none / prefix / skip)"""
+    script = script_for(cfg, random.Random(seed))
+    if seed & 1:
+        fate = lambda sim, r: loss_fate(seed)
+    else:
+        fate = lambda sim, r: c04_keylen.lose_first_fate(cfg, cfg.settings(), D)
+    return ps.run_session(cfg, seed & 0xFFFF, script, fate, phases_gap=1.0, setup=c04_aggr.make_setup(cfg, cls, variant, plan_filter, seed, D, EPS))
+
+
+def aggr_matches(cfg, seed, cls, att_obs, plan_filter=None):
+    """the reduction (prefix / none / skip) whose run is identical to the attacked one, or None and the differences"""
+    diffs = {}
+    for variant in ("prefix", "none", "skip"):
+        d = first_diff(observe(run_aggr(cfg, seed, cls, variant, plan_filter)), att_obs)
+        if d is None:
+            return variant, None
+        diffs[variant] = d
+    return None, diffs
+
+
+def work_aggr(idx, cfgd, cfg, seed, mode):
+    cls = mode.split(":")[1]
+    att = run_aggr(cfg, seed, cls, "attack")
+    variant, diffs = aggr_matches(cfg, seed, cls, observe(att))
+    bad = []
+    if variant is None:
+        descs = dict(att.injections)
+        def fails(sub):
+            a2 = run_aggr(cfg, seed, cls, "attack", set(sub))
+            v, df = aggr_matches(cfg, seed, cls, observe(a2), set(sub))
+            if v is None:
+                descs.update(dict(a2.injections))      # (what index i stands for when only `sub` is injected: the plan follows the traffic)
+            return df if v is None else None
+        cand = sorted(descs)
+        while len(cand) > 1:
+            h1, h2 = cand[:len(cand) // 2], cand[len(cand) // 2:]
+            d1 = fails(h1)
+            if d1:
+                cand, diffs = h1, d1; continue
+            d2 = fails(h2)
+            if d2:
+                cand, diffs = h2, d2; continue
+            break          # only a combination interferes
+        culprit = [(i, descs.get(i)) for i in cand[:2]]
+        d = diffs["prefix"]
+        bad.append(("aggregated-datagram", "a packet that is not genuine, placed inside one datagram with genuine packets of the same sender, changed the receiver's behaviour: "
+                    "aggregate(s) %r (layout: G = genuine packet, F = the foreign one; last field = the datagram); the run equals none of the runs in which the datagram is dropped, cut before "
+                    "the foreign packet, or stripped of it - against the last: %s differs (reference %s / attacked %s)" % (culprit, d[0], d[1], d[2])))
+    stats = {"inj": len(att.injections), "tx": sum(1 for e in att.netlog if e[0] == "tx"), "kinds": {}}
+    for _, dsc in att.injections:
+        k = "aggr:%s:%s" % (dsc[2], dsc[3].split("@")[0])
+        stats["kinds"][k] = stats["kinds"].get(k, 0) + 1
+    stats["kinds"]["aggr-sessions-like-" + str(variant)] = 1
+    return idx, cfgd, seed, mode, bad, att, stats, None
+
+
 def lite_gate(args):
     """'In every encoding a handshake packet with a wrong signature establishes nothing': lite carries a signature on the CONNECT request only
     (a byte stream has no third parties, so the alteration is made by the stream itself): the CONNECT re-encoded with one signature bit
@@ -728,6 +790,8 @@ def run(ctx):
                 "combinations x {wrong access key, wrong session key, wrong connection signature, wrong session id, spoofed port}, CONNECT acknowledgements with a valid packet signature but a connection response made without the session key, SYN / CONNECT acknowledgements carrying the sequence id of an unacknowledged DATA / PING / DISCONNECT packet, CONNECTs from an address that never sent a SYN signed with a cookie never handed out, the client's own CONNECT re-sent after the handshake "
                 "with another session id / connection-signature option (must be handled like a retransmission), idle connections (several keep-alive periods) with a trickle of invalid datagrams, "
                 "packets right in everything but the session key's LENGTH (signed with the empty key, all-zero keys of the right and of the other standard length, the genuine key cut by a byte / in half / extended by a zero byte): DATA reliable and unreliable, DISCONNECT, PING, their acknowledgements and aggregate acks, towards the server and towards the client, at the instant the connection comes to exist at the receiver, at four instants of an idle period in which the receiver has seen no genuine non-handshake packet, and before / after every later reliable packet plus acknowledgements of that packet sent to its sender, with either side the first to speak and with the first transmission of every reliable packet lost (v1, v0 signature_version 0; sessions with credentials), "
+                "AGGREGATED datagrams (harness/c04_aggr.py): one foreign packet (forged SYN / CONNECT / DATA / DISCONNECT / PING / acknowledgements / aggregate ack with a wrong access key, zero or empty session key, wrong connection signature, wrong session id; or a genuine packet with one bit flipped, on v0 also with the checksum recomputed) at every position in front of / between / behind 1..3 genuine packets of the same sender in ONE datagram (v0: FLAG_HAS_SIZE on every packet but the last), arriving just before / after the genuine datagram in flight, both directions, v1 and all 8 v0 variants - the attacked run must be identical to the run in which every such datagram is dropped, or cut before the foreign packet, or stripped of it; "
+                "RARELY USED SETTINGS (harness/c04_knobs.py): prudp.encryption = 0, zlib compression, max_substream_id, minor_version / supported_functions, an access key, key / pid sizes, ticket version, a dual-stack server, short timeouts, every flags / checksum version of v0 signature_version 0 (and 0 / 1 / 2 for any prudp* setting unknown to the harness), each on sessions WITH credentials attacked by the key-length family (now also the default stream key CD&ML), by the general forgery families and by aggregates; "
                 "injected just before/after the genuine datagram; v1 with/without credentials, v0 variants; every attacked v1/v0 run "
                 "is replayed through the Lean L1 model; distinct non-trivial = injected datagrams")
     jobs = []
@@ -770,6 +834,31 @@ def run(ctx):
           [((0, b, c), shape, fname) for b in (0, 1) for c in (0, 1) for shape in "ABC" for fname in ("lose-first", "none")]
     for v0, shape, fname in v0k:
         jobs.append((n, dict(base, version=0, v0=v0, credentials=True), ctx.rng.getrandbits(32), "keylen:%s:%s" % (shape, fname))); n += 1
+    # AGGREGATED datagrams (harness/c04_aggr.py): a foreign packet in front of / between / behind genuine packets of the same sender
+    # in one datagram; v1 with and without credentials, every v0 signature / flags / checksum variant, both failure levels
+    for rep in range(2 if quick else 8):
+        for creds in (True, False):
+            jobs.append((n, dict(base, version=1, credentials=creds, **({} if rep < 2 else dict(fragment_size=ctx.rng.choice([3, 7, 50]), max_substream=ctx.rng.choice([0, 1])))),
+                         (ctx.rng.getrandbits(31) << 1) | (rep & 1), "aggr:sig")); n += 1
+    for rep in range(1 if quick else 3):
+        for v0 in [(a, b, c) for a in (0, 1) for b in (0, 1) for c in (0, 1)]:
+            for k, cls in enumerate(("sig", "dec")):
+                jobs.append((n, dict(base, version=0, v0=v0, credentials=(True if rep == 0 else ctx.rng.random() < 0.7)), (ctx.rng.getrandbits(31) << 1) | ((sum(v0) + k + rep) & 1), "aggr:" + cls)); n += 1
+    # RARELY USED SETTINGS x sessions with credentials x forgeries made with everything public but the session key (harness/c04_knobs.py)
+    shapes = [(sh, fn) for sh in "ABC" for fn in ("lose-first", "none")]
+    for j, (label, kw) in enumerate(c04_knobs.v1_matrix()):
+        for r in range(2 if quick else 6):
+            sh, fn = shapes[(2 * j + 3 * r + (ctx.seed or 0)) % 6]
+            jobs.append((n, dict(base, version=1, credentials=True, **kw), ctx.rng.getrandbits(32), "keylen:%s:%s" % (sh, fn))); n += 1
+        jobs.append((n, dict(base, version=1, credentials=True, **kw), ctx.rng.getrandbits(32), "flip1-sample")); n += 1
+        if not quick or j % 4 == 0:
+            jobs.append((n, dict(base, version=1, credentials=True, **kw), (ctx.rng.getrandbits(31) << 1) | (j & 1), "aggr:sig")); n += 1
+    for j, (label, kw) in enumerate(c04_knobs.v0_matrix(quick)):
+        for r in range(1 if quick else 6):
+            sh, fn = shapes[(j + r + (ctx.seed or 0)) % 6]
+            jobs.append((n, dict(base, version=0, credentials=True, **kw), ctx.rng.getrandbits(32), "keylen:%s:%s" % (sh, fn))); n += 1
+        if not quick or j % 3 == 0:
+            jobs.append((n, dict(base, version=0, credentials=True, **kw), ctx.rng.getrandbits(32), "flip1-sample")); n += 1
     drv = ctx.driver("C02")
     ndiff, first = 0, None
     with multiprocessing.Pool(min(16, os.cpu_count() or 4)) as pool:
@@ -780,7 +869,10 @@ def run(ctx):
             for key, what in bad:
                 ctx.violation(("c04:%s:v%d" % (key, cfgd["version"])) if not key.startswith("KNOWN:") else "c04:" + key[6:], what, {"cfg": cfgd, "seed": seed, "mode": mode,
                               "how": "harness/corr_C04.py work((0, cfg, seed, mode))"})
-            r = l1_corr.compare(drv, att, "x") if att is not None and mode != "other-encoding" else {"ok": True, "diffs": [], "skipped": True}
+            if err is None and att is not None and att.connect_error is not None and cfgd.get("knobs") and not bad:
+                ctx.tag("knob-value-left-out:%r" % (cfgd["knobs"],))      # (a value of an unknown setting with which no session comes up)
+                continue
+            r = l1_corr.compare(drv, att, "x") if att is not None and mode != "other-encoding" and not cfgd.get("compression") else {"ok": True, "diffs": [], "skipped": True}
             if not r["ok"]:
                 ndiff += 1
                 if first is None:
